@@ -395,12 +395,20 @@ pub fn run(tier: &str) -> i32 {
                                     if r2.bytes_consumed > rest.len() || r2.bytes_written > room2 {
                                         return Err(format!("second call counts {}/{} {}/{}", r2.bytes_consumed, rest.len(), r2.bytes_written, room2));
                                     }
+                                    // once failed, keeps failing: a data error, and a failed first-call
+                                    // Finish (documented to "end up with a failure regardless"), are final
+                                    let c1 = mzres_code(&r1.status);
+                                    let c2 = mzres_code(&r2.status);
+                                    let first_finish_failed = f1 == MZFlush::Finish && c1 == -5;
+                                    if (c1 == -3 || first_finish_failed) && c2 >= 0 {
+                                        return Err(format!("STICKY first call answered {} (flush {}), the next call answered {} and wrote {} bytes", c1, f1 as i32, c2, r2.bytes_written));
+                                    }
                                     Ok(())
                                 });
                                 let rp = json!({"inflate_input_hex": hex(d), "fmt": fmt_name(fmt), "f1": f1 as i32, "room1": room1, "cut": cut, "f2": f2 as i32, "room2": room2});
                                 match r {
                                     Ok(Ok(())) => {}
-                                    Ok(Err(e)) => rep.violation("C05/inflate-wrapper/counts", e, rp),
+                                    Ok(Err(e)) => rep.violation(if e.starts_with("STICKY") { "C05/inflate-wrapper/failure-not-sticky" } else { "C05/inflate-wrapper/counts" }, e, rp),
                                     Err(p) => rep.violation("C05/inflate-wrapper/panic", format!("inflate() panicked: {}", p), rp),
                                 }
                             }
